@@ -66,9 +66,9 @@ def _dtype(sc):
 
 def bounds(tier):
     if tier == "quick":
-        return {"entries": [0, 1, 2, 5], "scales": [1, 0.5, 1e-10, "big", "i8", "u8", "i32"], "alphas": ALPHAS,
+        return {"entries": [0, 1, 2, 5], "scales": [1, 0.5, 1e-10, 1e-170, 1e150, "big", "i8", "u8", "i32"], "alphas": ALPHAS,
                 "leading_shapes": [list(s) for s in SHAPES], "big_entries": BIG}
-    return {"entries": [0, 1, 2, 3, 5, 10], "scales": [1, 0.5, 1e-3, 1e6, 1e-10, 1e-12, "big", "big32", "i8", "u8", "i16", "u16", "i32", "u32"], "alphas": ALPHAS,
+    return {"entries": [0, 1, 2, 3, 5, 10], "scales": [1, 0.5, 1e-3, 1e6, 1e-10, 1e-12, 1e-170, 1e-300, 1e150, "big", "big32", "i8", "u8", "i16", "u16", "i32", "u32"], "alphas": ALPHAS,
             "leading_shapes": [list(s) for s in SHAPES], "big_entries": BIG}
 
 
@@ -141,16 +141,20 @@ def _run_alpha_sweep(item, ctx, seed):
         near += [c, 1 - (1 - c), c * (1 + 6e-3), c * (1 - 4e-3), c + 3e-4, c - 4e-4, c * (1 + 1e-4), float(np.nextafter(c, 1)), float(np.nextafter(c, 0))]
     ladder = [(j + 0.37 + 0.01 * part) / (n + 1) for j in range(n)]
     first = near[: 12] + ladder[: 8]
-    hist = list(dict.fromkeys(near + ladder)) + first  # early alphas come back at the end
+    dyadic = [0.5, 0.25, 0.125, 0.375, 0.0625, 0.75]  # representable in float32 / float16: asked for in those types first
+    hist = [np.float32(a) for a in dyadic] + [np.float16(a) for a in dyadic] + dyadic
+    hist = hist + list(dict.fromkeys(near + ladder)) + first  # early alphas come back at the end
     cm = ConfusionMatrix(matrix=arr, binary=True)
     flat = arr.reshape(-1, 2, 2)
     ctx.state()
     for step, alpha in enumerate(hist):
         if not 0 < alpha < 1:
             continue
+        narrow = isinstance(alpha, (np.float32, np.float16))
         for nm, (cn, nn) in CIS.items():
             api = "cm" if step % 2 else "metrics"
-            case = {"kind": "alpha_sweep", "matrix": arr.tolist(), "step": step, "alpha": alpha, "metric": nm, "api": api,
+            case = {"kind": "alpha_sweep", "matrix": arr.tolist(), "step": step, "alpha": float(alpha), "alpha_type": type(alpha).__name__,
+                    "metric": nm, "api": api,
                     "distinct_alphas_before": min(step, len(hist) - len(first))}
             f = (lambda: getattr(cm, nm)(alpha=alpha)) if api == "cm" else (lambda: getattr(metrics, nm)(arr, alpha=alpha))
             ok, ci = guarded(ctx, "ci-" + nm, case, f)
@@ -165,9 +169,12 @@ def _run_alpha_sweep(item, ctx, seed):
                         ctx.fail("ci-nan-iff-rate-nan", case, observed=ci[k], expected="nan")
                     continue
                 ctx.nontrivial()
-                want = refs.ref_binomial_ci(float(d[cn]), float(d[nn]), alpha)
+                want = refs.ref_binomial_ci(float(d[cn]), float(d[nn]), float(alpha))
                 mag = max(1.0, abs(want[0]), abs(want[1]))
-                if not (abs(ci[k][0] - want[0]) <= 1e-9 * mag and abs(ci[k][1] - want[1]) <= 1e-9 * mag):
+                # double-precision alphas are judged to 1e-12 (the reference quantile is good to 1e-15); an alpha handed
+                # over in a narrow float type only to the resolution of that type
+                tol = (1e-12 if not narrow else 4 * float(np.finfo(type(alpha)).eps)) * mag
+                if not (abs(ci[k][0] - want[0]) <= tol and abs(ci[k][1] - want[1]) <= tol):
                     ctx.fail("ci-equals-normal-approximation", dict(case, matrix_index=k), observed=ci[k], expected=want)
                     break
     ctx.outcome(("alpha_sweep", part, len(hist)))
